@@ -665,6 +665,42 @@ theorem fact_assert_matters :
     obsOf (runY { share with assertDefineFresh := false, assertZeroOnFail := false } G0 St.empty progAssertLoop)
       = ⟨["v5=7 v6=0", "v5=8 v6=0", "v1=s2/2[&8,&8]"], "ok"⟩ := by decide
 
+/-- F04-20 `g := P{1,2}; g = f(&g)` with `func f(q *P) (r P) { r.X = 5; r.Y = q.X; return }`, then `h := P{1,2}; h = f2(&h)` where f2
+    only sets r.X, then an element destination — formerly the callee's named result WAS the destination's cell ({5 5}, {5 2}); repaired
+    by commit 1b5ab85 of the repository (results are fresh cells of the callee frame, copied after the call) -/
+def progCallNamed : List Op :=
+  [.s (.define 1 (.lit (.str (.cons (.int 1) (.cons (.int 2) .nil))))),
+   .s (.callNamed false (.var 1) (.var 1) (.field (.var 0) 0) 5 (.field (.var 0) 1) (.field (.var 0) 0) (.str (.cons (.int 0) (.cons (.int 0) .nil)))),
+   .s (.define 2 (.lit (.str (.cons (.int 1) (.cons (.int 2) .nil))))),
+   .s (.callNamed false (.var 2) (.var 2) (.field (.var 0) 0) 5 (.field (.var 0) 0) (.field (.var 0) 0) (.str (.cons (.int 0) (.cons (.int 0) .nil)))),
+   .s (.define 3 (.lit (.arr (.cons (.str (.cons (.int 1) (.cons (.int 2) .nil))) (.cons (.str (.cons (.int 3) (.cons (.int 4) .nil))) .nil))))),
+   .s (.callNamed false (.index (.var 3) (.lit 0)) (.index (.var 3) (.lit 0)) (.field (.var 0) 0) 5 (.field (.var 0) 1) (.field (.var 0) 0)
+        (.str (.cons (.int 0) (.cons (.int 0) .nil)))),
+   .s (.show [1, 2, 3])]
+
+theorem call_named_result_fixed :
+    obsOf (runY share G0 St.empty progCallNamed) = ⟨["v1={5,1} v2={1,0} v3=[{5,1},{3,4}]"], "ok"⟩ ∧
+    obsOf (Spec.runGo G0 St.empty progCallNamed) = ⟨["v1={5,1} v2={1,0} v3=[{5,1},{3,4}]"], "ok"⟩ := by decide
+
+/-- … and with the destination's cell as result slot (the source before 1b5ab85) the model reproduces F04-20 -/
+theorem fact_callResultsFresh_matters :
+    obsOf (runY { share with callResultsFresh := false } G0 St.empty progCallNamed) = ⟨["v1={5,5} v2={5,2} v3=[{5,5},{3,4}]"], "ok"⟩ := by decide
+
+/-- F04-19 `x, y := sw()` and `a[0], a[1] = sw()` with `func sw() (a, b int) { a, b = 1, 2; return b, a }` — formerly 2 2; repaired by
+    commit 8544122 of the repository -/
+def progRetSwap : List Op :=
+  [.s (.retSwap true (.var 1) (.var 2) (.int 1) (.int 2)),
+   .s (.define 3 (.lit (.arr (.cons (.int 0) (.cons (.int 0) .nil))))),
+   .s (.retSwap false (.index (.var 3) (.lit 0)) (.index (.var 3) (.lit 1)) (.int 7) (.int 8)),
+   .s (.show [1, 2, 3])]
+
+theorem return_permutes_results_fixed :
+    obsOf (runY share G0 St.empty progRetSwap) = ⟨["v1=2 v2=1 v3=[8,7]"], "ok"⟩ ∧
+    obsOf (Spec.runGo G0 St.empty progRetSwap) = ⟨["v1=2 v2=1 v3=[8,7]"], "ok"⟩ := by decide
+
+theorem fact_returnTwoPhase_matters :
+    obsOf (runY { share with returnTwoPhase := false } G0 St.empty progRetSwap) = ⟨["v1=2 v2=2 v3=[8,8]"], "ok"⟩ := by decide
+
 /-! ### a literal whose operands read the destination -/
 
 /-- **The operands of a composite literal see the OLD value of the destination**: `l = T{…, e_i, …}` where the `e_i` may be
